@@ -37,9 +37,23 @@ const siteReplInt = 60400
 
 func init() { simrt.RegisterSite(siteReplInt, "hrepl:interrupter") }
 
+// lines with exactly one (large) output value: the whole output of such a line belongs to one
+// display evaluation, written in several chunks
+var replBigLines = []string{`[range(3000)]`, `[range(2500)] | map(tostring)`, `"y" * 30000`, `[range(1500)] | map({a: .})`}
+
 var replLines = []string{
 	`123`, `"abc"`, `[1,2,3] | length`, `range(12)`, `range(40) | tostring`, `[range(30)]`, `{a: 1, b: [2, 3]}`,
 	`"x" * 300`, `1, 2, 3`, `[range(2000)] | length`, `range(6) | . * 2`, `"line" , "two"`, `null`, `[range(15)] | map(. + 1)`,
+}
+
+func isBigLine(l string) bool {
+	l = strings.TrimSpace(l)
+	for _, b := range replBigLines {
+		if l == b {
+			return true
+		}
+	}
+	return false
 }
 
 type replSeg struct {
@@ -131,6 +145,9 @@ func genScript(t *simrt.Tape) replScript {
 			sc.descr = append(sc.descr, "^C")
 		default:
 			l := replLines[t.Intn(len(replLines))]
+			if t.Intn(4) == 0 {
+				l = replBigLines[t.Intn(len(replBigLines))]
+			}
 			// unique texts: a line's reference output is looked up by its text
 			for used[l] {
 				l = l + " "
@@ -208,6 +225,16 @@ func (*hrepl) Run(rc *core.RunCtx) *core.RunResult {
 		outLen int
 	}
 	ints := make([]sent, 0, 8)
+	// number of delivered interrupts that are certainly fully processed: the channel is empty
+	// and the trigger goroutine waits in its select again
+	processed := 0
+	nSentOK := 0
+	o.Out.OnWrite = func() int {
+		if replChanEmpty(o) && simrt.BlockedAt("pkg/interp/interp.go") {
+			processed = nSentOK
+		}
+		return processed
+	}
 	run := runFQ(t, o, fqOpts{Policy: []int{simrt.PolUniform, simrt.PolSticky2, simrt.PolSticky2, simrt.PolSticky8}[t.Intn(4)], Fine: t.Intn(3) == 0, Extra: func(sim *simrt.Sim) {
 		if nInts == 0 {
 			return
@@ -219,6 +246,9 @@ func (*hrepl) Run(rc *core.RunCtx) *core.RunResult {
 					simrt.Block(siteReplInt)
 				}
 				ok := o.Interrupt()
+				if ok {
+					replInc(&nSentOK)
+				}
 				replNote(&ints, sent{seq: o.Seq(), ok: ok, outLen: replOutLen(o)})
 			}
 		})
@@ -294,6 +324,36 @@ func (*hrepl) Run(rc *core.RunCtx) *core.RunResult {
 	// every delivered interrupt cancels one innermost evaluation some time after it was
 	// sent (the trigger goroutine may be scheduled late): it accounts for at most one
 	// piece of missing output in the segment where it is sent or in a later one
+	// output written after cancellation is suppressed: for a line with a single output value,
+	// once an interrupt has been fully processed after the line's first write, at most the one
+	// write that had already passed the context check may still arrive
+	for _, s := range segs {
+		if !isBigLine(s.line.Text) {
+			continue
+		}
+		first := -1
+		late := 0
+		for wi, at := range o.Out.WriteAt {
+			if at <= s.retSeq || at >= s.endSeq || wi >= len(o.Out.WriteTag) {
+				continue
+			}
+			if first < 0 {
+				first = o.Out.WriteTag[wi]
+				continue
+			}
+			if o.Out.WriteTag[wi] > first {
+				late++
+			}
+		}
+		res.Probes["single_value_lines"]++
+		if late > 0 {
+			res.Probes["writes_after_cancel_seen"] += late
+		}
+		if late >= 2 {
+			viol("output-after-cancellation", "repl", "line %q has one output value; an interrupt was fully processed after its first write, yet %d further writes of that value reached the terminal", strings.TrimSpace(s.line.Text), late)
+			return res
+		}
+	}
 	used := 0
 	for _, s := range segs {
 		if s.line.Text == "" {
@@ -339,6 +399,12 @@ func (*hrepl) Run(rc *core.RunCtx) *core.RunResult {
 
 //go:norace
 func replOutLen(o *simos.OS) int { return len(o.Out.Buf) }
+
+//go:norace
+func replChanEmpty(o *simos.OS) bool { return len(o.IntCh) == 0 }
+
+//go:norace
+func replInc(p *int) { *p++ }
 
 //go:norace
 func replNote[T any](l *[]T, v T) { *l = append(*l, v) }
